@@ -289,6 +289,12 @@ func writeBodyStream(resp *protocol.Response, w network.Writer, sendBody bool) (
 	}()
 
 	contentLength := resp.Header.ContentLength()
+	if contentLength == 0 && len(resp.Header.ContentLengthBytes()) == 0 {
+		// The length of a stream is kept in the header only. The handler has taken it
+		// back (Header.Del, Header.Reset): the stream is one of unknown length, not a
+		// message without any framing.
+		contentLength = -1
+	}
 	if contentLength < 0 {
 		lrSize := ext.LimitedReaderSize(resp.BodyStream())
 		if lrSize >= 0 {
